@@ -17,7 +17,7 @@ EXPLANATION = (
     "slots; it also reports whether the floating-point control state is saved (R2); stacks are mapped and unmapped with "
     "the same size and guard-page adjustment, and a thread object is recycled into the heap it is taken from (R3).")
 ASSUMPTIONS = ["the x86-64 Linux assembly backend is the one compiled (PIKA_HAVE_BOOST_CONTEXT off, checked)", "System V AMD64 ABI: rbx, rbp, r12-r15 and the MXCSR/x87 control bits are callee-saved"]
-FLOORS = {"C12.R1": 3, "C12.R2": 6, "C12.R3": 2, "C12.R4": 2, "C12.R5": 1, "C12.R6": 12, "C12.R7": 2, "C12.R8": 1}
+FLOORS = {"C12.R1": 3, "C12.R2": 6, "C12.R3": 2, "C12.R4": 2, "C12.R5": 1, "C12.R6": 12, "C12.R7": 2, "C12.R8": 1, "C12.R9": 2}
 
 TD = "pika::threads::detail::thread_data"
 CB = "pika::threads::coroutines::detail::context_base"
@@ -85,7 +85,7 @@ def run(rep, tier):
         rep.ok("C12.R1", rb[0], "a recycled task starts with no interruption request, interruption enabled and exit callbacks not run")
     else:
         rep.bad("C12.R1", rb[0], rb[0].loc, "rebind-values", "rebind_base must reset %s (found %s)" % (want, got))
-    CIF = facts(rep, lib("coroutines", "src/detail/coroutine_impl.cpp"), [r"context_base::(context_base|rebind_base|reset|reset_tss|yield|invoke)$", r"coroutine_impl::(coroutine_impl|rebind|reset)$",
+    CIF = facts(rep, lib("coroutines", "src/detail/coroutine_impl.cpp"), [r"context_base::(context_base|rebind_base|reset|reset_tss|yield|invoke)$", r"coroutine_impl::(coroutine_impl|rebind|reset|operator\(\))$",
                                                                              r"x86_linux_context_impl::(init|rebind_stack|reset_stack|x86_linux_context_impl)$"], [r"x86_linux_context_impl$"])
     for cls, ctorname, rebinders, ex in ((CB, "context_base", ("rebind_base", "reset", "reset_tss"), {"m_caller": "not a mem-initialiser target", "m_allocation_counters": "statistics",
                                                                                                    "continuation_recursion_count_": "only changed through the balanced accessor get_continuation_recursion_count() (scoped ++/--): zero whenever the coroutine is not executing"}),
@@ -190,6 +190,33 @@ def run(rep, tier):
         rep.bad("C12.R8", yl[0], yl[0].loc, "eh-globals-not-switched", "no function of the library references __cxa_get_globals: the caught-exception chain of a task that yields inside a "
                 "catch handler stays with the worker it ran on - other tasks on that worker see its exception as std::current_exception(), and the task itself, resumed on "
                 "another worker, finds current_exception() empty ('throw;' would terminate or rethrow a foreign exception)")
+
+    # ---- R9: the task's identity is published while anything of the task can still run
+    rep.rule("C12.R9", "K2 (a task is itself until its last destructor has run): the trampoline publishes the task's 'self' in the worker's thread-local slot through a scoped "
+             "guard (reset_self_on_exit) and clears it when the guard dies. Destroying the thread function (coroutine_impl::reset(): the destructors of everything the "
+             "function object owns run here, on the task's stack, and may yield) and the task-local data (reset_tss) happens while that guard is alive - the guard is "
+             "constructed before and destroyed after them on every path. Otherwise those destructors find no identity (get_self_id() invalid, this_thread::yield throws, a "
+             "pika::mutex records no owner) and a stale self pointer is left behind for the next task")
+    tr = [f for f in CIF.find(r"coroutine_impl::operator\(\)$") if f.parent == -1 and not f.pattern]
+    if not tr:
+        raise AnalysisBroken("coroutine_impl::operator() (the trampoline loop) not found")
+    tr = tr[0]
+    gvars = [e.get("var") for _, _, e in tr.all_events() if e.get("k") == "ctor" and str(e.get("rec")).endswith("reset_self_on_exit")]
+    if not gvars:
+        rep.bad("C12.R9", tr, tr.loc, "self-not-published", "the trampoline no longer publishes the task's self through a scoped guard")
+    for nm in ("reset", "reset_tss"):
+        cs9 = [(b, i, e) for b, i, e in tr.all_events() if e.get("k") == "call" and callee_short(e) == nm and e.get("recv") is not None and P(e["recv"]) == "this"]
+        if not cs9:
+            raise AnalysisBroken("trampoline: call of %s() not found" % nm)
+        for b, i, e in cs9:
+            alive = gvars and precedes_on_all_paths(tr, lambda x: x.get("k") == "ctor" and x.get("var") in gvars, (b, i),
+                                                    reset_pred=lambda x: x.get("k") == "dtor" and x.get("var") in gvars)
+            if alive:
+                rep.ok("C12.R9", tr, "%s() runs while the task's self is published" % nm)
+            else:
+                rep.bad("C12.R9", tr, loc_of(e), "identity-withdrawn-before:" + nm, "the trampoline calls %s() after the guard that publishes the task's self (%s) has been destroyed (or "
+                        "before it exists): the destructors of what the thread function owns run - possibly yielding - without an identity, and the self pointer they re-publish "
+                        "through the agent is never cleared: later tasks on this worker inherit it" % (nm, ", ".join(gvars) or "reset_self_on_exit"))
 
     # ---- R7: a context that never ran has no stack yet
     rep.rule("C12.R7", "K8 (lazily allocated stack; the sibling context_generic_context guards the same two members with 'if (ctx_)'): the constructor leaves the stack "
